@@ -363,6 +363,29 @@ def c08_7(ctx):
             r = next((s for s in n.body if isinstance(s, ast.Return)), None)
             if r is not None and isinstance(r.value, ast.Compare) and len(r.value.ops) == 1:
                 got[n.test.comparators[0].value] = (type(r.value.ops[0]), unparse(r.value.left), unparse(r.value.comparators[0]), n)
+    # ... or a table of the operator module's functions indexed by the operator text and applied to (lhs, rhs)
+    _OPF = {'operator.eq': ast.Eq, 'operator.ne': ast.NotEq, 'operator.gt': ast.Gt, 'operator.ge': ast.GtE, 'operator.lt': ast.Lt, 'operator.le': ast.LtE}
+    if not got:
+        for r in returns(ev):
+            v = r.value
+            if isinstance(v, ast.Call) and len(v.args) == 2 and not v.keywords:
+                f_ = deref(ctx, ev, v.func, r)
+                tbl = None
+                if isinstance(f_, ast.Call) and isinstance(f_.func, ast.Attribute) and f_.func.attr == 'get' and f_.args and unparse(f_.args[0]) == 'self._operator':
+                    tbl = f_.func.value
+                elif isinstance(f_, ast.Subscript) and unparse(f_.slice) == 'self._operator':
+                    tbl = f_.value
+                if tbl is not None:
+                    from engine.fold import Ref
+                    try:
+                        d_ = ctx.fold.try_fold(tbl, ev.module, ev.cls)
+                    except Exception:
+                        d_ = None
+                    if isinstance(d_, dict):
+                        for k_, fv in d_.items():
+                            name = fv.dotted if isinstance(fv, Ref) else None
+                            if name in _OPF:
+                                got[k_] = (_OPF[name], unparse(v.args[0]), unparse(v.args[1]), r)
     for op, want in _CMP.items():
         g = got.get(op)
         ctx.check(g is not None and g[0] is want and g[1] == 'lhs_value' and g[2] == 'rhs_value', f'op:{op}', ev.site(g[3]) if g else ev.site(),
